@@ -15,7 +15,7 @@ import (
 // (quick: 4 combinations; thorough: the full 2x3x3x2 product).
 func c13Options() []EncoderOption {
 	opts := []EncoderOption{WithEncoderStrictMode(true)}
-	if vsymTier() == 1 {
+	if vsymTier() == 1 && !c13Joint {
 		if vsymBool() {
 			opts = append(opts, WithASCIIQuote(QuoteSingle))
 		}
@@ -52,10 +52,14 @@ func c13Options() []EncoderOption {
 // thorough: boundary values independently.
 var c13Cfg int
 
+// c13Joint forces the quick-style joint configurations even in the thorough tier (used for the
+// largest ASCII bound, where the full option x header product does not finish).
+var c13Joint bool
+
 func c13Header() (byte, byte, bool) {
-	if vsymTier() == 1 {
-		ss := []byte{0, 1, 9, 10, 99, 100, 127}
-		fs := []byte{0, 1, 2, 13, 99, 100, 255}
+	if vsymTier() == 1 && !c13Joint {
+		ss := []byte{0, 9, 10, 127}
+		fs := []byte{0, 1, 99, 100, 255}
 		s, f := ss[vsymChoose(len(ss))], fs[vsymChoose(len(fs))]
 		return s, f, f%2 == 1 && vsymBool()
 	}
@@ -109,6 +113,9 @@ func VerifC13_ASCII() {
 			vsymRegion("asciiContainsGreaterThan")
 		}
 	}
+	// thorough: 3 bytes with the four joint option/header configurations, 0..2 bytes with the full
+	// option product (the full product with 3 symbolic bytes ran past 45 minutes)
+	c13Joint = n == 3
 	opts := c13Options()
 	stream, fn, w := c13Header()
 	msg, err := hsms.NewDataMessage(stream, fn, w, 0, [4]byte{}, secs2.A(string(b)))
